@@ -3,14 +3,21 @@
    governing virtualdomains entry, envelope rules) evaluated on what the implementation produced.
    Input lines (hex fields, blob = NUL-separated case fields):
      P <blob> <stripped> <text> <sleeps>
-     I <id> <blob> <bouncefile> <ret> <q> <F> <T> <body> <left> <log> <ret2> <q2> <F2> <T2> <body2|=> <left2>
+     I <id> <blob> <bouncefile> <ret> <q> <F> <T> <body> <left> <log> <ret2> <q2> <F2> <T2> <body2|=> <left2> <log2> <sizes>
      C <blob> <n> <sender0> {<F> <T>}*
-     D <blob> <appended> -/
+     D <blob> <appended>
+   Daemon level (C14_daemon_*): every I line is also replayed as the whole life of message <id> through the
+   monitor `Nq.Daemon.accept` with the history layer `Nq.BounceDaemon` (arrival, preprocessing, one D report per
+   failure, `appendBounce` with the bytes the real addbounce() appended, the injection(s) with the envelope and text
+   the real injectbounce() handed to qmail-queue, the unlink of bounce/<id> when the real code removed it); the I
+   lines of one C case (ids 4711, 4712, …) run through ONE monitor, so the chain message -> bounce -> double bounce ->
+   discard is one accepted event sequence. -/
 import Drv.Util
 import Nq.Bounce
 import Nq.Spec.BounceSpec
+import Nq.BounceDaemon
 
-open Nq Nq.Bounce Nq.BounceSpec Drv
+open Nq Nq.Bounce Nq.BounceSpec Nq.BounceDaemon Drv
 
 def splitNul (b : Bytes) : List Bytes :=
   let rec go : Bytes → Bytes → List Bytes → List Bytes
@@ -242,6 +249,137 @@ def handleI (o : Out) (id : Nat) (blobh : String) (blob : Bytes) (bfile : Option
     o := o.ora s!"in={blobh} kind=I why=notice-lost-after-temporary-failure"
   return o
 
+
+/-! ### daemon level: replay through the monitor, oracle of C14_daemon_* on the implementation's output -/
+
+def ID0 : Nat := 4711
+def troubleLog : Bytes := str "warning: trouble injecting bounce message, will try later\n"
+def unlinkWarn : Bytes := str "warning: unable to unlink "
+def okAddr : Bytes := [111, 107]
+
+/-- monitor + history carried from one I line of a chain to the next -/
+structure Chain where
+  sg : Option (Daemon.St × Ghost) := none
+  gapSender : Bool := false        -- the last message's sender is `#@[]-@[]…` (monitor gap, see C14_daemon_verp_discard_gap)
+
+/-- envelope bytes as qmail-queue receives them, from the captured qmail_from / qmail_to calls -/
+def envReal (f : Bytes) (t : List Bytes) : Bytes := 70 :: f ++ [0] ++ (t.map (fun r => 84 :: r ++ [0])).flatten
+
+/-- cut the bounce file at the sizes observed after each real addbounce() call (oldest first) -/
+def cutParts (file : Bytes) : Nat → List Nat → Option (List Bytes)
+  | prev, [] => if prev == file.length then some [] else none
+  | prev, sz :: r =>
+    if sz < prev || sz > file.length then none
+    else (cutParts file sz r).map (fun ps => ((file.drop prev).take (sz - prev)) :: ps)
+
+def feedAll (dcfg : Daemon.Cfg) : (Daemon.St × Ghost) → List (String × Daemon.Ev) → Except String (Daemon.St × Ghost)
+  | sg, [] => .ok sg
+  | sg, (nm, e) :: r => match gaccept dcfg sg e with
+    | some sg' => feedAll dcfg sg' r
+    | none => .error nm
+
+def dcfgOf (cfg : Cfg) : Daemon.Cfg :=
+  { conc := fun _ => 1, lifetime := 604800, route := fun a => (.loc, a), doublebounceto := cfg.doublebounceto }
+
+def lab (nm : String) (es : List Daemon.Ev) : List (String × Daemon.Ev) := es.map (fun e => (nm, e))
+
+/-- the events of one real injectbounce() call, from what the harness observed -/
+def callEvents (id : Nat) (q : Bool) (f : Bytes) (t : List Bytes) (body log : Bytes) (before after : Bool) : List (String × Daemon.Ev) :=
+  (if q then [("bounceInject-ok", Daemon.Ev.bounceInject id true (envReal f t) body)]
+   else if log == troubleLog then [("bounceInject-failed", Daemon.Ev.bounceInject id false [] [])] else [])
+  ++ (if before && !after then [("unlinkBounce", Daemon.Ev.unlinkBounce id)] else [])
+
+def daemonI (o : Out) (ch : Chain) (id : Nat) (blobh : String) (cfg : Cfg) (sender : Bytes) (fails : List (Bytes × Bytes))
+    (bfile : Option Bytes) (ret q : Bool) (f : Bytes) (t : List Bytes) (body : Bytes) (left : Bool) (log : Bytes)
+    (ret2 q2 : Bool) (f2 : Bytes) (t2 : List Bytes) (body2 : Bytes) (left2 : Bool) (log2 : Bytes) (sizes : List Nat) : Out × Chain := Id.run do
+  let mut o := o
+  let dcfg := dcfgOf cfg
+  let base := specBase sender
+  let gap := base == DBSENDER && sender != DBSENDER
+  let had := bfile.isSome
+  let file := bfile.getD []
+  let parts := match cutParts file 0 sizes with
+    | some ps => if ps.length == fails.length then ps else []
+    | none => []
+  if had && parts.length != fails.length then
+    o := o.dis s!"in={blobh} kind=I what=sizes-do-not-cut-the-bounce-file sizes={sizes} len={file.length}"
+    return (o, { sg := none })
+  -- (a) on the implementation's output: the file is unlinked only after an injection of exactly its content
+  --     (executable form of the monitor's guard, `injectGuard`; `#@[]` after VERP stripping = the documented discard)
+  if had && !left && base != DBSENDER && !(q && injectGuard dcfg sender file (envReal f t) body) then
+    o := o.ora s!"in={blobh} kind=I why=bounce-file-unlinked-without-injection-of-its-content env={hex (envReal f t)}"
+  if left && !left2 && base != DBSENDER && !(q2 && injectGuard dcfg sender file (envReal f2 t2) body2) then
+    o := o.ora s!"in={blobh} kind=I why=bounce-file-unlinked-without-injection-of-its-content-on-retry env={hex (envReal f2 t2)}"
+  -- (b) every text appended by addbounce() is inside every notice that was queued
+  if q && !parts.all (fun p => Daemon.isInfix p body) then
+    o := o.ora s!"in={blobh} kind=I why=appended-paragraph-missing-from-queued-notice"
+  if q2 && !parts.all (fun p => Daemon.isInfix p body2) then
+    o := o.ora s!"in={blobh} kind=I why=appended-paragraph-missing-from-queued-notice-on-retry"
+  -- (b) committed bounces (queued and the file removed by the same call): never two, exactly one when the file is gone
+  let committed := (if q && had && !left then 1 else 0) + (if q2 && left && !left2 then 1 else 0)
+  if committed > 1 then o := o.ora s!"in={blobh} kind=I why=paragraphs-sent-in-two-committed-bounces"
+  if had && base != DBSENDER && !left2 && committed != 1 then
+    o := o.ora s!"in={blobh} kind=I why=bounce-file-gone-without-exactly-one-committed-bounce committed={committed}"
+  -- (b) a notice that was queued while the file stays is the at-least-once case: only when unlink failed
+  if q && left && !Daemon.isInfix unlinkWarn log then
+    o := o.ora s!"in={blobh} kind=I why=notice-queued-but-bounce-file-kept-without-unlink-failure"
+  -- (b) a failed call keeps the record
+  if had && !ret && !q && !left then o := o.ora s!"in={blobh} kind=I why=record-lost-by-failed-injection"
+  -- replay through the monitor
+  let start : Option (Daemon.St × Ghost) := if id == ID0 then some ginit else ch.sg
+  match start with
+  | none => return (o, { sg := none })
+  | some sg0 =>
+    let named := fails.map (fun fr => namedRecipient cfg.locals cfg.vdoms fr.1)
+    let addrs := okAddr :: named
+    let setup := lab "setup-arrive" (evArrive id sender addrs)
+      ++ lab "setup-deliver" [.cmd .loc 0 id 0 okAddr, .rbytes .loc [0, 75, 0], .markD id .loc 0]
+    let failEvs := (List.zip (List.range fails.length) (List.zip fails parts)).flatMap (fun (j, fr, part) =>
+      [("setup-cmd", Daemon.Ev.cmd .loc 0 id (recPos addrs (j + 1)) (addrs.getD (j + 1) [])),
+       ("setup-report", Daemon.Ev.rbytes .loc ([0, 68] ++ fr.2.filter (· != 0) ++ [0])),
+       ("appendBounce", Daemon.Ev.appendBounce id part),
+       ("setup-mark", Daemon.Ev.markD id .loc (recPos addrs (j + 1)))])
+    let close := lab "setup-close" [Daemon.Ev.unlinkChan id .loc]
+    let calls := if gap then [] else
+      callEvents id q f t body log had left ++ callEvents id q2 f2 t2 body2 log2 left left2
+      ++ (if ret2 && !left2 then lab "done" (evDone id) else [])
+    if gap then o := { o with st := o.st.bump "daemon_gap_verp_discard" }
+    match feedAll dcfg sg0 (setup ++ failEvs ++ close ++ calls) with
+    | .error nm =>
+      if nm.startsWith "setup" then o := o.dis s!"in={blobh} kind=I what=daemon-replay event={nm} rejected by the monitor"
+      else o := o.ora s!"in={blobh} kind=I why=daemon-monitor-rejects-{nm}"
+      return (o, { sg := none })
+    | .ok (s, g) =>
+      let gm := g id
+      let outcome : String :=
+        if !gm.committed.isEmpty then (if gm.attempts.length > gm.committed.length then "daemon_committed_after_resend" else "daemon_committed")
+        else if (s.msg id).discarded then "daemon_discarded" else if !had then "daemon_nothing_failed"
+        else if gap then "daemon_gap" else "daemon_pending"
+      o := { o with st := (o.st.bump "daemon_replayed").bump outcome }
+      -- the history the monitor recorded is the implementation's: what was committed is what the real code queued
+      if !gap then
+        let wantCommitted : List Bytes := if q && had && !left then [body] else if q2 && left && !left2 then [body2] else []
+        if gm.committed.map (·.body) != wantCommitted || (gm.committed.any fun x => x.file != file || x.parts.reverse != parts) then
+          o := o.dis s!"in={blobh} kind=I what=daemon-history committed={gm.committed.length} want={wantCommitted.length}"
+      return (o, { sg := some (s, g), gapSender := gap })
+
+/-- end of a C case: the chain as the monitor's history saw it -/
+def daemonC (o : Out) (ch : Chain) (blobh : String) (sender : Bytes) (env : List (Bytes × Bytes)) : Out := Id.run do
+  let mut o := o
+  match ch.sg with
+  | none => return o
+  | some (s, g) =>
+    o := { o with st := o.st.bump "daemon_chain_checked" }
+    for (k, ft) in List.zip (List.range env.length) env do
+      if (g (ID0 + k)).committed.map (·.env) != [envReal ft.1 [ft.2]] then
+        o := o.ora s!"in={blobh} kind=C why=chain-step-{k}-not-committed-exactly-once-with-this-envelope"
+    let last := ID0 + env.length
+    let gapS := specBase sender == DBSENDER && sender != DBSENDER
+    if env.length < 6 && !(gapS && env.isEmpty) then
+      if !(g last).committed.isEmpty || !((s.msg last).noted.isEmpty || (s.msg last).discarded) || (s.msg last).bounce.isSome then
+        o := o.ora s!"in={blobh} kind=C why=chain-does-not-end-in-a-discard-or-a-message-without-failures"
+    return o
+
 def handleC (o : Out) (blobh : String) (blob : Bytes) (n : Nat) (s0 : Bytes) (env : List (Bytes × Bytes)) : Out := Id.run do
   let fs := splitNul blob
   let cfg := getcontrols (controlsOf fs)
@@ -283,7 +421,7 @@ def pairUp : List Bytes → List (Bytes × Bytes)
   | a :: b :: r => (a, b) :: pairUp r
   | _ => []
 
-def handle (st : Stats) (line : String) : IO Stats := do
+def handle (chain : IO.Ref Chain) (st : Stats) (line : String) : IO Stats := do
   let bad : IO Stats := do
     IO.println s!"DISAGREE unparsable line {line.take 300}"
     return { st with disagree := st.disagree + 1, cases := st.cases + 1 }
@@ -314,7 +452,7 @@ def handle (st : Stats) (line : String) : IO Stats := do
       let o := handleD { st := st } blobh blob a
       finish o blob (a != ABSENT) s!"kind=D in={blobh} appended={ah}"
     | _, _ => bad
-  | ["I", ids, blobh, bfh, rets, qs, fh, ths, bodyh, lefts, logh, ret2s, q2s, f2h, t2hs, body2h, left2s] =>
+  | ["I", ids, blobh, bfh, rets, qs, fh, ths, bodyh, lefts, logh, ret2s, q2s, f2h, t2hs, body2h, left2s, log2h, sizess] =>
     match ids.toNat?, unhex blobh, unhex bfh, b01 rets, b01 qs, unhex fh, unhexList ths, unhex bodyh with
     | some id, some blob, some bf, some ret, some q, some f, some t, some body =>
       match b01 lefts, unhex logh, b01 ret2s, b01 q2s, unhex f2h, unhexList t2hs, b01 left2s with
@@ -324,6 +462,16 @@ def handle (st : Stats) (line : String) : IO Stats := do
         | some body2 =>
           let bfile := if bfh == "-" then none else some bf
           let o := handleI { st := st } id blobh blob bfile ret q f t body left log ret2 q2 f2 t2 body2 left2
+          let sizes : Option (List Nat) := if sizess == "-" then some [] else (sizess.splitOn ",").mapM (·.toNat?)
+          let o ← (match unhex log2h, sizes with
+            | some log2, some szs => do
+              let fs := splitNul blob
+              let ch ← chain.get
+              let (o', ch') := daemonI o ch id blobh (getcontrols (controlsOf fs)) (fld fs 9) (pairsFrom (fs.drop 11))
+                bfile ret q f t body left log ret2 q2 f2 t2 (body2.getD body) left2 log2 szs
+              chain.set ch'
+              pure o'
+            | _, _ => pure (o.dis s!"in={blobh} kind=I what=unparsable-log2-or-sizes"))
           finish o blob (q || !ret) s!"kind=I in={blobh} ret={rets} q={qs} F={fh} T={ths} left={lefts} log={logh} body={bodyh}"
         | none => bad
       | _, _, _, _, _, _, _ => bad
@@ -335,8 +483,13 @@ def handle (st : Stats) (line : String) : IO Stats := do
     match unhex blobh, ns.toNat?, unhex s0h, rest.mapM unhex with
     | some blob, some n, some s0, some envl =>
       let o := handleC { st := st } blobh blob n s0 (pairUp envl)
+      let ch ← chain.get
+      let o := daemonC o ch blobh s0 (pairUp envl)
+      chain.set {}
       finish o blob (n > 0) s!"kind=C in={blobh} n={ns} chain={" ".intercalate rest}"
     | _, _, _, _ => bad
   | _ => bad
 
-def main : IO Unit := runDriver handle
+def main : IO Unit := do
+  let chain ← IO.mkRef ({} : Chain)
+  runDriver (handle chain)
